@@ -36,7 +36,7 @@ def gen(rng, tier, i):
     script = cgen.gen_script(rng, max_gates=rng.choice([5, 10, 20, 30]), max_in=5, max_ff=3, p_glitchy=0.15)
     if rng.random() < 0.03: script = {'net': 'b01', 'ffs': [1]}
     m = rng.choice([2, 4, 8])
-    sims = rng.choice([1, 2, 3, 5, 7, 8, 9, 12, 16, 17, 20, 33, 64])
+    sims = rng.choice([1, 2, 3, 5, 7, 8, 9, 12, 16, 17, 20, 33, 64, 257])
     cycles = rng.choice([1, 1, 2, 3, 4]) if script['ffs'] else rng.choice([1, 1, 2])
     inj = []
     for cy in range(cycles):
